@@ -612,8 +612,17 @@ package xpath
 //@   props C15
 //@   captures a != nil && node != nil
 //@ func (*attributeQuery).Select$1
-//@   props C15
+//@   props C15 C01 C12
+//@   theory nav for C01 C12
+//@   uses tree-attr tree-attr-owner tree-kinds
 //@   captures a != nil && node != nil
+//@   creation[element-start@C01] kind(pos(node)) != 2
+//@   modifies heap(navpos), heap(C@*)
+//@   let E0 = ite(kind(pos(node)) == 2, parent(pos(node)), pos(node))
+//@   let A0 = ite(kind(pos(node)) == 2, aidx(pos(node)), 0)
+//@   ensures[next-matching-attribute@C01,C12] result != nil ==> result == node && kind(pos(node)) == 2 && parent(pos(node)) == E0 && A0 < aidx(pos(node)) && aidx(pos(node)) <= natt(E0) && predv(ref(a), pos(node)) && forall(j, Int, A0 < j && j < aidx(pos(node)) ==> !predv(ref(a), attr(E0, j)))
+//@   ensures[no-more-attributes@C01] result == nil ==> forall(j, Int, A0 < j && j <= natt(E0) ==> !predv(ref(a), attr(E0, j)))
+//@   loop 0 invariant[scan@C01,C12] ite(kind(pos(node)) == 2, parent(pos(node)) == E0 && A0 <= aidx(pos(node)) && aidx(pos(node)) <= natt(E0), pos(node) == E0 && A0 == 0) && forall(j, Int, A0 < j && j <= ite(kind(pos(node)) == 2, aidx(pos(node)), 0) ==> !predv(ref(a), attr(E0, j)))
 //@ func (*childQuery).Select$1
 //@   props C15 C01 C12
 //@   theory nav for C01 C12
@@ -1996,10 +2005,11 @@ package xpath
 //@   ensures[document-root@C13] old(a.count) == 0 ==> n != nil && pos(n) == rootof(old(pos(cur(t)))) && isFresh(n)
 //@   ensures[once@C13] old(a.count) > 0 ==> n == nil
 //@ func (*attributeQuery).Select
-//@   props C15 C13
-//@   theory stream for C13
+//@   props C15 C13 C01
+//@   theory stream for C13 C01
 //@   uses one-document
 //@   loop * invariant[cursor@C13] cur(t) == old(cur(t)) && pos(cur(t)) == old(pos(cur(t)))
+//@   ensures[drains-input@C01] result == nil ==> k(a.Input) == slen(ref(a.Input), epoch(a.Input))
 //@ func (*childQuery).Select
 //@   props C15 C13 C03 C01
 //@   theory stream for C13 C03 C01
@@ -2217,6 +2227,8 @@ package xpath
 //@ axiom[tree-child] forall(p, Pos, forall(i, Int, 1 <= i && i <= nch(p) ==> parent(child(p, i)) == p && idx(child(p, i)) == i && !isroot(child(p, i)) && kind(child(p, i)) != 2 && depth(child(p, i)) == depth(p) + 1 && pre(child(p, i)) > pre(p) && pre(child(p, i)) + size(child(p, i)) <= pre(p) + size(p) && size(child(p, i)) >= 1, child(p, i)))
 //@ axiom[tree-parent] forall(p, Pos, kind(parent(p)) != 2 && (!isroot(p) && kind(p) != 2 ==> 1 <= idx(p) && idx(p) <= nch(parent(p)) && child(parent(p), idx(p)) == p), parent(p))
 //@ axiom[tree-kinds] forall(p, Pos, 0 <= kind(p) && kind(p) <= 4 && (kind(p) == 0) == isroot(p) && nch(p) < 1073741824, kind(p))
+//@ axiom[tree-attr] forall(e, Pos, forall(i, Int, 1 <= i && i <= natt(e) ==> kind(attr(e, i)) == 2 && parent(attr(e, i)) == e && aidx(attr(e, i)) == i && kind(e) != 2, attr(e, i)))
+//@ axiom[tree-attr-owner] forall(p, Pos, kind(p) == 2 ==> 1 <= aidx(p) && aidx(p) <= natt(parent(p)) && attr(parent(p), aidx(p)) == p, aidx(p))
 //@ axiom[tree-depth] forall(p, Pos, 0 <= depth(p) && depth(p) < 1073741824 && size(p) >= 1 && nch(p) >= 0 && isroot(p) == (depth(p) == 0), depth(p))
 //@ define walkerOK(level, p) = 0 <= level && level <= depth(p) && (level > 0 ==> kind(p) != 2 && !isroot(p))
 //@ instance sibOrder(q, i) = 1 <= i && i < nch(q) ==> pre(child(q, i + 1)) == pre(child(q, i)) + size(child(q, i))
